@@ -57,6 +57,22 @@ pub fn aes_verifier_ok(pw: &[u8], strength: u64, raw: &[u8]) -> bool {
     dk[2 * klen..] == raw[sl..sl + 2]
 }
 
+/// the two sanitising accessors as byte sequences: enclosed = [] | [path bytes], mangled = [component bytes...]
+pub fn path_facts(name: &str, enclosed: Option<&std::path::Path>, mangled: std::path::PathBuf) -> Map<String, Value> {
+    use std::os::unix::ffi::OsStrExt;
+    let mut m = Map::new();
+    m.insert("raw".into(), json!(name.as_bytes()));
+    m.insert("enclosed".into(), match enclosed {
+        None => json!([]),
+        Some(p) => json!([p.as_os_str().as_bytes()]),
+    });
+    let comps: Vec<Value> = mangled.components().map(|c| json!(c.as_os_str().as_bytes())).collect();
+    m.insert("mangled".into(), json!(comps));
+    m.insert("mangled_abs".into(), json!(mangled.is_absolute()));
+    m.insert("panic".into(), json!(false));
+    m
+}
+
 fn put_view(m: &mut Map<String, Value>, f: &zip::read::ZipFile) {
     m.insert("name".into(), abs_name(f.name().as_bytes()));
     m.insert("rawname".into(), abs_name(f.name_raw()));
@@ -236,6 +252,23 @@ pub fn run(sc: &Value) -> Vec<Value> {
                 }
                 push(m);
             }
+        }
+    }
+    // ---- sanitised paths (C06)
+    if sc.get("paths").and_then(|x| x.as_bool()).unwrap_or(false) {
+        for i in 0..n {
+            let rr = catch_unwind(AssertUnwindSafe(|| ar.by_index_raw(i).ok().map(|f| path_facts(f.name(), f.enclosed_name(), f.mangled_name()))));
+            let mut m = match rr {
+                Ok(Some(m)) => m,
+                _ => {
+                    let mut m = Map::new();
+                    m.insert("panic".into(), json!(true));
+                    m
+                }
+            };
+            m.insert("ev".into(), json!("RPath"));
+            m.insert("i".into(), json!(i + 1));
+            push(m);
         }
     }
     // ---- lookup by name: every distinct decoded name, plus absent names
